@@ -23,6 +23,7 @@ type BrokerCfg struct {
 	AliasInAck      bool // assign aliases for data ids announced in chunks (sent in the next ack)
 	FailCodePermil  int  // share of chunk results that carry a failure code
 	ConnectCode     message.ResultCode
+	ReuseAliases    bool // a closed upstream's stream id alias is given to the next upstream opened on the connection
 }
 
 type pt struct {
@@ -247,12 +248,41 @@ func (b *Broker) conn(l *Link) *bConn {
 }
 
 func (b *Broker) upByAlias(l *Link, alias uint32) *bUp {
+	var closed *bUp
 	for _, u := range b.Ups {
 		if a, ok := u.aliasOn[l.ID]; ok && a == alias {
-			return u
+			if !u.Closed {
+				return u
+			}
+			closed = u // an alias may have been reused: the open stream owns it
 		}
 	}
-	return nil
+	return closed
+}
+
+// allocUpAlias hands out the stream id alias of a new or resumed upstream on connection c.
+func (b *Broker) allocUpAlias(c *bConn, l *Link) uint32 {
+	if !b.Cfg.ReuseAliases {
+		c.nextUpAlias++
+		return c.nextUpAlias
+	}
+	for a := uint32(1); ; a++ {
+		used := false
+		for _, u := range b.Ups {
+			if x, ok := u.aliasOn[l.ID]; ok && x == a && !u.Closed {
+				used = true
+				break
+			}
+		}
+		if !used {
+			if a > c.nextUpAlias {
+				c.nextUpAlias = a
+			} else {
+				b.s.Stat("env.upstream-alias-reused-by-broker")
+			}
+			return a
+		}
+	}
 }
 
 func (b *Broker) upByID(id uuid.UUID) *bUp {
@@ -441,11 +471,11 @@ func (b *Broker) Handle(l *Link, m message.Message) {
 			aliasOn: map[int]uint32{}, dataAlias: map[uint32]message.DataID{}, revAlias: map[message.DataID]uint32{},
 			toAnnounce: map[uint32]message.DataID{}, ResultsSent: map[uint32][]message.ResultCode{},
 		}
+		ua := b.allocUpAlias(c, l)
 		b.Ups = append(b.Ups, u)
-		c.nextUpAlias++
-		u.aliasOn[l.ID] = c.nextUpAlias
+		u.aliasOn[l.ID] = ua
 		resp := &message.UpstreamOpenResponse{
-			RequestID: t.RequestID, AssignedStreamID: u.ID, AssignedStreamIDAlias: c.nextUpAlias,
+			RequestID: t.RequestID, AssignedStreamID: u.ID, AssignedStreamIDAlias: ua,
 			ResultCode: message.ResultCodeSucceeded, ResultString: "OK", ServerTime: time.Unix(1_700_000_000, 0).UTC(),
 			DataIDAliases: map[uint32]*message.DataID{}, ExtensionFields: &message.UpstreamOpenResponseExtensionFields{},
 		}
@@ -477,9 +507,9 @@ func (b *Broker) Handle(l *Link, m message.Message) {
 			resp.ResultCode, resp.ResultString = message.ResultCodeResumeRequestConflict, "conflict"
 			s.Stat("fault.resume-conflict")
 		default:
-			c.nextUpAlias++
-			u.aliasOn[l.ID] = c.nextUpAlias
-			resp.AssignedStreamIDAlias = c.nextUpAlias
+			ua := b.allocUpAlias(c, l)
+			u.aliasOn[l.ID] = ua
+			resp.AssignedStreamIDAlias = ua
 			resp.ResultCode, resp.ResultString = message.ResultCodeSucceeded, "OK"
 		}
 		rec.Outcome, rec.Alias = resp.ResultCode, resp.AssignedStreamIDAlias
